@@ -14,7 +14,9 @@ BASE_CFG = {
     "custom_means": dict(kind="custom", poly_trend=1, n_offsets=0, K_custom=(2.0, 20.0), mu_v=(4.0, 0, 0), sigma_v=(50.0, 1.0, 0.03)),
     "default_offset": dict(kind="default", poly_trend=1, n_offsets=1, sigma_K0=300.0, sigma_v=(70.0, 1.0, 0.03), off_sig=(4.0, 6.0), off_mu=(0.5, 0.0)),
 }
-BASE_DATA = [dict(n=4, layout="short", err="hetero"), dict(n=6, layout="long", err="uniform"), dict(n=3, layout="repeat", err="large")]
+BASE_DATA = [dict(n=4, layout="short", err="hetero"), dict(n=6, layout="long", err="uniform"), dict(n=3, layout="repeat", err="large"),
+             # precise data generated from theta row 5 of the grid: its marginal ln-likelihood is POSITIVE in km/s and negative in m/s
+             dict(n=12, layout="short", err="small", y_from="row5")]
 
 
 def theta24(seed):
@@ -50,7 +52,10 @@ def run_twin(base_name, pri_units, dunit, libu, dshape, theta, seed, uplan=None)
     Ku, vu, vt, Pu, P0u = pri_units
     kw = dict(BASE_CFG[base_name])
     prior, dec = pb.make_prior(K_unit=Ku, v_unit=vu, v_time_unit=vt, P_unit=Pu, P0_unit=P0u, cache=True, **kw)
-    data, dd = pb.make_data(unit=dunit, seed=seed, n_surveys=kw["n_offsets"] + 1, **dshape)
+    dsh = dict(dshape)
+    if dsh.get("y_from") == "row5":
+        dsh["y_from"] = [float(x) for x in theta[5, :4]]
+    data, dd = pb.make_data(unit=dunit, seed=seed, n_surveys=kw["n_offsets"] + 1, **dsh)
     lib = pb.make_samples(theta, P_unit=libu[0], angle_unit=libu[1], s_unit=libu[2])
     out = dict(dd=dd, dec=dec)
     joker = tj.TheJoker(prior)
@@ -209,7 +214,7 @@ def main():
     chk = core.Check(
         PID, "exploration",
         "3 base configurations (default K + quadratic-free trend, custom K with non-zero means, default K with cap and one offset) x 3 data "
-        "shapes x 24 theta x the full product of unit assignments {K-prior unit, trend-prior velocity unit, trend time unit day/yr, "
+        "shapes (+ one precise data set generated from the model, whose best ln-likelihood is positive in km/s) x 24 theta x the full product of unit assignments {K-prior unit, trend-prior velocity unit, trend time unit day/yr, "
         "period-prior unit day/yr/(h), P0 unit, data unit km/s / m/s / (cm/s), library columns P day/yr/(h), angles rad/deg, s km/s / m/s} "
         "(quick: 2-letter sub-alphabets, 512 twins per base problem; thorough: 1728): Delta lnL = -N ln(unit ratio), identical accepted "
         "set under scripted uniforms >= 20 % away from every ratio, physically equal (a, A) and returned columns. Non-trivial: a twin that "
@@ -218,7 +223,7 @@ def main():
     priors, dus, libs = unit_assignments(chk.quick)
     items = [(b, p) for b in BASE_CFG for p in priors]
     priors, dus, libs = unit_assignments(chk.quick)
-    chk.bounds = {"base_problems": 9, "twins_per_base_problem": len(priors) * len(dus) * len(libs)}
+    chk.bounds = {"base_problems": len(BASE_CFG) * len(BASE_DATA), "twins_per_base_problem": len(priors) * len(dus) * len(libs)}
     chk.merge(core.parallel(shard, core.interleave(items, core.NPROC * 2), quick=chk.quick, seed=chk.seed))
     chk.assumptions += ["astropy unit conversion is trusted", "the canonical twin's own values are validated against the closed form by C01"]
     return chk.finish(run_case)
